@@ -384,6 +384,68 @@ theorem b2Run_inv (P : B2Par) (hP : B2ParOK P) : ∀ (evs : List B2Event) (s : B
   | e :: evs, s, h => b2Run_inv P hP evs _ (b2Step_inv P hP s e h)
 
 
+/-! ## the response path's parameters (`rspCfg`) satisfy `B2ParOK` -/
+
+theorem encodeVarAux_length : ∀ (n v : Nat), (encodeVarAux n v).length = n
+  | 0, _ => rfl
+  | n + 1, v => by simp [encodeVarAux, encodeVarAux_length n v]
+
+theorem varLen_le4 (x : Nat) : varLen x ≤ 4 := by
+  unfold varLen; split <;> (try split) <;> (try split) <;> (try split) <;> omega
+
+theorem optEncodeSize_le43 (d l : Nat) (hl : l ≤ 4) : optEncodeSize d l ≤ 43 := by
+  unfold optEncodeSize
+  have e1 : ¬ (l ≥ 13) := by omega
+  simp only [e1, if_false]
+  split <;> (try split) <;> omega
+
+theorem writeBlockBOpt_val_len (maxSize tokOpts num szx dataLen : Nat) (b : BlockB) (val : Bytes)
+    (h : writeBlockBOpt maxSize tokOpts num szx dataLen = WriteRes.ok b val) : val.length ≤ 4 := by
+  unfold writeBlockBOpt at h
+  dsimp only at h
+  split at h
+  · cases h
+  · cases hsb : setupBlockB maxSize tokOpts num szx dataLen with
+    | none => rw [hsb] at h; cases h
+    | some sb =>
+      rw [hsb] at h
+      simp only at h
+      cases h
+      unfold encodeBlock encodeVar
+      rw [encodeVarAux_length]
+      exact varLen_le4 _
+
+theorem writeOk_some (w : WriteRes) (b : BlockB) (val : Bytes) (h : writeOk w = some (b, val)) : w = WriteRes.ok b val := by
+  cases w with
+  | ok b' val' => simp only [writeOk] at h; cases h; rfl
+  | illegal => simp only [writeOk] at h; cases h
+  | nospace => simp only [writeOk] at h; cases h
+
+/-- the response path's parameters (`rspCfg`, tied to coap_add_data_large_response through `addDataLargeRsp` and the T2
+op `xmit2`) satisfy what `B2ParOK` asks of `cfg` -/
+theorem rspCfg_ok (maxSize tokLen optBytes lastOpt maxBlk length etagLen : Nat) (hms : maxSize < 2 ^ 62)
+    (szx : Nat) (c : AdlCfg) (h : rspCfg maxSize tokLen optBytes lastOpt maxBlk length etagLen szx = some c) :
+    c.maxSize < 2 ^ 62 ∧ c.tokOpts0 ≤ c.base + 43 ∧
+    ((16 : Int) ≤ adlAvail c.maxSize c.tokOpts0 c.tokLen →
+      ((2 ^ (c.b2 + 4) : Nat) : Int) ≤ adlAvail c.maxSize c.tokOpts0 c.tokLen) ∧ c.b2 ≤ 6 := by
+  unfold rspCfg at h
+  obtain ⟨p, hp, hc⟩ := Option.map_eq_some_iff.mp h
+  obtain ⟨b, val⟩ := p
+  have hw := writeOk_some _ b val hp
+  have hval := writeBlockBOpt_val_len _ _ _ _ _ b val hw
+  have hopt := optEncodeSize_le43 (23 - lastOpt) val.length hval
+  rw [← hc]
+  unfold rspCfgOf
+  dsimp only
+  generalize hA : adlAvail maxSize (tokLen + optBytes + optEncodeSize (23 - lastOpt) val.length) tokLen = A
+  have hb6 := adlBlkSize_le6 A
+  have hb2 : (if b.aszx < (if maxBlk ≠ 0 ∧ adlBlkSize A > maxBlk then maxBlk else adlBlkSize A) then b.aszx
+      else (if maxBlk ≠ 0 ∧ adlBlkSize A > maxBlk then maxBlk else adlBlkSize A)) ≤ adlBlkSize A := by
+    split <;> split <;> omega
+  refine ⟨hms, by omega, ?_, by omega⟩
+  intro h16
+  exact adl_b2_le _ _ hb2 h16 (by rw [← hA, adlAvail_eq]; omega)
+
 /-! ## Block1 direction -/
 
 theorem srcvDecide_szx (lg1 : Srcv) (m chunk : Nat) (s' : Srcv) (h : (srcvDecide lg1 m chunk).1 = some s') :
